@@ -37,7 +37,8 @@ RULE = ("seeded structured generator: reactant/product multisets (0-4 x 0-4 spec
         "override), products balanced by construction then perturbed in one attribute with probability ~0.4, energies "
         "(potential, H and G contributions, occasionally missing or duplicated) as dyadic rationals in the five energy units, "
         "0-3 transition-state stubs; every reaction is queried with ~25 delta_type spellings + random strings over the "
-        "parser's alphabet, before and after switch/save/load histories. A case is non-trivial unless the reaction is the "
+        "parser's alphabet, and is taken through a history of 1-5 switch / save+load / ts=None / ts=TS / tss.append operations "
+        "with len(tss), is_barrierless, ts and four deltas observed after every step. A case is non-trivial unless the reaction is the "
         "empty reaction; distinct by (stream, reaction spec, spelling / history)")
 
 SLICE = ["lib/Sums.v", "lib/QcInst.v", "C06/Base.v", "C06/Model.v", "C06/Lemmas.v", "gen/C06_Gen.v",
@@ -481,8 +482,44 @@ def oracles(im, spec, spellings, rng, workdir, with_ckpt):
         if im.delta(rxn, s) != base[s]:
             fail("Reaction.switch_reactants_products|not-involutive", f"delta({s!r}) differs after switching twice", spelling=s)
             break
+    # --- the ts setter: None removes every TS (barrier = diffusion-limit estimate), a TS becomes the only one;
+    #     both persist through switch / save / load
+    os.makedirs(workdir, exist_ok=True)
+    path = os.path.join(workdir, "setter.chk")
+    no_ts = dict(spec, tss=[])
+    rxn.ts = None
+    for stage in ("ts = None", "ts = None; switch; save; load; switch"):
+        if stage != "ts = None":
+            rxn = apply_ops(im, rxn, [["switch"], ["saveload"], ["switch"]], path)
+        if len(rxn.tss) != 0 or rxn.ts is not None or not rxn.is_barrierless:
+            fail("Reaction.ts.setter|none-keeps-transition-states",
+                 f"after `{stage}` (reaction built with {len(spec['tss'])} TS): len(tss) = {len(rxn.tss)}, "
+                 f"is_barrierless = {rxn.is_barrierless}", stage=stage)
+            break
+        for s, (kind, ts) in DOC.items():
+            if ts:
+                got, want = im.delta(rxn, s), spec_delta(im, no_ts, kind, True)
+                if got[0] != want[0] or (got[0] == "val" and not relclose(got[1], float(want[1]))):
+                    fail("Reaction.ts.setter|none-barrier-not-estimate", f"after `{stage}`: delta({s!r}) = {got}, "
+                         f"diffusion-limit estimate = {want}", stage=stage, spelling=s)
+                    break
+    new_t = {"atoms": ["H"], "charge": 0, "mult": 1, "solvent": None, "energies": gen_energies(rng, im, 1.0)}
+    one_ts = dict(spec, tss=[new_t])
+    rxn.ts = im.ts(new_t, "tsn")
+    rxn = apply_ops(im, rxn, [["saveload"]], path)
+    if len(rxn.tss) != 1 or rxn.is_barrierless:
+        fail("Reaction.ts.setter|value", f"after `ts = TS; save; load`: len(tss) = {len(rxn.tss)}, is_barrierless = {rxn.is_barrierless}", new_ts=new_t)
+    else:
+        for s, (kind, ts) in DOC.items():
+            if ts:
+                got, want = im.delta(rxn, s), spec_delta(im, one_ts, kind, True)
+                if got[0] != want[0] or (got[0] == "val" and not relclose(got[1], float(want[1]))):
+                    fail("Reaction.ts.setter|value", f"after `ts = TS; save; load`: delta({s!r}) = {got}, TS minus reactants = {want}",
+                         new_ts=new_t, spelling=s)
+                    break
     # --- checkpoint round trip
     if with_ckpt:
+        _, rxn = im.build(spec)
         out += checkpoint_oracles(im, spec, rxn, spellings, workdir)
     return out
 
@@ -615,15 +652,76 @@ PROBE = {1.0: ("energy", False), 3.0: ("enthalpy", False), 5.0: ("free_energy", 
          16.0: ("energy", True), 48.0: ("enthalpy", True), 80.0: ("free_energy", True)}
 
 
+STEP_SPELLINGS = ["E", "E‡", "H‡", "G ddagger"]
+
+
+def apply_op(im, rxn, o, path):
+    """One history operation: ['switch'] | ['saveload'] | ['set_ts', ts-spec or None] | ['append_ts', ts-spec]."""
+    if o[0] == "switch":
+        rxn.switch_reactants_products()
+    elif o[0] == "saveload":
+        rxn.save(path)
+        rxn = im.Reaction()
+        rxn.load(path)
+    elif o[0] == "set_ts":
+        rxn.ts = None if o[1] is None else im.ts(o[1], "tsx")
+    else:
+        rxn.tss.append(im.ts(o[1], "tsa"))
+    return rxn
+
+
 def apply_ops(im, rxn, ops, path):
     for o in ops:
-        if o == "switch":
-            rxn.switch_reactants_products()
-        else:
-            rxn.save(path)
-            rxn = im.Reaction()
-            rxn.load(path)
+        rxn = apply_op(im, rxn, o, path)
     return rxn
+
+
+def gen_ops(rng, im, spec):
+    n_at = sum(len(s["atoms"]) for s in spec["reacs"])
+
+    def ts_spec():
+        return {"atoms": ["H"] * n_at, "charge": 0, "mult": 1, "solvent": None,
+                "energies": gen_energies(rng, im, rng.choice([1.0, 1.0, 0.7]))}
+    ops = []
+    for _ in range(rng.randint(1, 5)):
+        k = rng.random()
+        if k < 0.3:
+            ops.append(["switch"])
+        elif k < 0.55:
+            ops.append(["saveload"])
+        elif k < 0.75:
+            ops.append(["set_ts", None])
+        elif k < 0.9:
+            ops.append(["set_ts", ts_spec()])
+        else:
+            ops.append(["append_ts", ts_spec()])
+    return ops
+
+
+def coq_op(o):
+    if o[0] == "switch":
+        return "OSwitch"
+    if o[0] == "saveload":
+        return "OSaveLoad"
+    if o[0] == "set_ts":
+        return "(OSetTS None)" if o[1] is None else f"(OSetTS (Some {coq_species(o[1])}))"
+    return f"(OAppendTS {coq_species(o[1])})"
+
+
+def observe_state(im, rxn):
+    """-> Coq arguments of check_state: len(tss), is_barrierless, energy of reaction.ts"""
+    try:
+        t = rxn.ts
+    except Exception:  # noqa  (pinned lowest_energy: TypeError among several TSs without energy)
+        return f"{len(rxn.tss)}%nat None TErr", (len(rxn.tss), "err", "err")
+    b = bool(rxn.is_barrierless)
+    if t is None:
+        e, eo = "TNone", None
+    elif t.energy is None:
+        e, eo = "(TSome None)", "no-energy"
+    else:
+        e, eo = f"(TSome (Some ({qc(float(t.energy))}, {cstr(t.energy.units.name)})))", (float(t.energy), t.energy.units.name)
+    return f"{len(rxn.tss)}%nat (Some {coq_bool(b)}) {e}", (len(rxn.tss), b, eo)
 
 
 def correspondence(ctx, im, specs, spell_lists, full):
@@ -685,17 +783,32 @@ def correspondence(ctx, im, specs, spell_lists, full):
         pairs = [(s, im.delta(rxn, s)) for s in spellings]
         for s, d in pairs:
             ctx.hist("delta", "outcome " + (d[0] if d[0] != "err" else d[1]))
-        # a history of switch / save+load operations on the same reaction
-        ops = [ctx.rng.choice(["switch", "saveload"]) for _ in range(ctx.rng.randint(1, 4))]
-        rxn = apply_ops(im, rxn, ops, os.path.join(ctx.work, "hist.chk"))
-        sub = spellings[:len(DOC)][::2] + spellings[len(DOC):][::4]
-        hpairs = [(s, im.delta(rxn, s)) for s in sub]
-        oterm = coq_list(["OSwitch" if o == "switch" else "OSaveLoad" for o in ops])
+        # a history of switch / save+load / set-TS / append-TS operations on the same reaction, observed after EVERY step
+        ops = gen_ops(ctx.rng, im, spec)
+        path = os.path.join(ctx.work, "hist.chk")
+        lets, checks = [], []
+        st0, _ = observe_state(im, rxn)
+        checks.append(f"check_state r {st0}")
+        prev = "r"
+        for k, o in enumerate(ops):
+            rxn = apply_op(im, rxn, o, path)
+            ctx.hist("delta+history", "op " + o[0] + ("(None)" if o[0] == "set_ts" and o[1] is None else ""))
+            name = f"h{k}"
+            lets.append(f"let {name} := run_op {coq_op(o)} {prev} in")
+            prev = name
+            sterm, _ = observe_state(im, rxn)
+            checks.append(f"check_state {name} {sterm}")
+            last = k == len(ops) - 1
+            sub = (spellings[:len(DOC)][::2] + spellings[len(DOC):][::4]) if last else STEP_SPELLINGS
+            hp = [(s, im.delta(rxn, s)) for s in sub]
+            checks.append(coq_deltas(spl, name, hp))
+            nh = len(hp)
         tname = "None" if rxn.type is None else f"(Some {coq_string(rxn.type.name)})"
-        add(f"(let r := {coq_built(spec)} in let h := run_ops {oterm} r in\n   {coq_deltas(spl, 'r', pairs)} && "
-            f"opt_string_eqb (rtype h) {tname} && {coq_deltas(spl, 'h', hpairs)})",
-            {"kind": "delta", "spec": spec, "spellings": spellings, "ops": ops, "history_spellings": sub},
-            "delta+history", (key, tuple(spellings), tuple(ops)), nontrivial=(nr + np_ > 0), evals=len(pairs) + len(hpairs))
+        checks.append(f"opt_string_eqb (rtype {prev}) {tname}")
+        add(f"(let r := {coq_built(spec)} in {' '.join(lets)}\n   {coq_deltas(spl, 'r', pairs)} && " + " && ".join(checks) + ")",
+            {"kind": "delta", "spec": spec, "spellings": spellings, "ops": ops},
+            "delta+history", (key, tuple(spellings), json.dumps(ops, sort_keys=True)), nontrivial=(nr + np_ > 0),
+            evals=len(pairs) + len(ops) * len(STEP_SPELLINGS) + nh)
     # balance the shards: cheap (classify / parser) and expensive (reaction) cases are dealt round-robin
     nsh = 12 if not full else max(12, len(terms) // 150)
     order = sorted(range(len(terms)), key=lambda i: (i % nsh, i))
@@ -706,7 +819,7 @@ def correspondence(ctx, im, specs, spell_lists, full):
 
 
 def pinpoint(ctx, im, bad):
-    """For disagreeing delta/history cases: which spelling, before or after the history?  (second pass)"""
+    """For disagreeing delta/history cases: which observation, after which step?  (second pass)"""
     notes = []
     for d, _ in bad[:3]:
         if d["kind"] != "delta":
@@ -716,19 +829,28 @@ def pinpoint(ctx, im, bad):
             continue
         spl = Spellings()
         rterm = coq_built(d["spec"])
-        res = [im.delta(rxn, s) for s in d["spellings"]]
-        terms = [f"check_delta {rterm} {spl.ref(s)} {coq_dexp(r)}" for s, r in zip(d["spellings"], res)]
-        rxn = apply_ops(im, rxn, d["ops"], os.path.join(ctx.work, "hist2.chk"))
-        hterm = "(run_ops " + coq_list(["OSwitch" if o == "switch" else "OSaveLoad" for o in d["ops"]]) + " " + rterm + ")"
-        hres = [im.delta(rxn, s) for s in d["history_spellings"]]
-        terms += [f"check_delta {hterm} {spl.ref(s)} {coq_dexp(r)}" for s, r in zip(d["history_spellings"], hres)]
+        terms, labels = [], []
+        for s in d["spellings"]:
+            r = im.delta(rxn, s)
+            terms.append(f"check_delta {rterm} {spl.ref(s)} {coq_dexp(r)}")
+            labels.append(("initial", s, list(r)))
+        hterm = rterm
+        for k, o in enumerate(d["ops"]):
+            rxn = apply_op(im, rxn, o, os.path.join(ctx.work, "hist2.chk"))
+            hterm = f"(run_op {coq_op(o)} {hterm})"
+            where = "after " + " / ".join(x[0] + ("(None)" if x[0] == "set_ts" and x[1] is None else "") for x in d["ops"][:k + 1])
+            sterm, sobs = observe_state(im, rxn)
+            terms.append(f"check_state {hterm} {sterm}")
+            labels.append((where, "len(tss), is_barrierless, ts.energy", list(sobs)))
+            for s in STEP_SPELLINGS + (list(DOC) if k == len(d["ops"]) - 1 else []):
+                r = im.delta(rxn, s)
+                terms.append(f"check_delta {hterm} {spl.ref(s)} {coq_dexp(r)}")
+                labels.append((where, s, list(r)))
         tname = "None" if rxn.type is None else f"(Some {coq_string(rxn.type.name)})"
         terms.append(f"opt_string_eqb (rtype {hterm}) {tname}")
-        labels = ([("before", s, list(r)) for s, r in zip(d["spellings"], res)] +
-                  [("after " + "/".join(d["ops"]), s, list(r)) for s, r in zip(d["history_spellings"], hres)] +
-                  [("type after " + "/".join(d["ops"]), "", [str(tname)])])
-        b2, _ = ctx.coq_bad_indices(PRE + spl.preamble(), terms, per_file=200, name="c05pin")
-        notes.append({"disagreeing": [labels[i] for i in b2[:6]]})
+        labels.append(("final type", "", [str(tname)]))
+        b2, _ = ctx.coq_bad_indices(PRE + spl.preamble(), terms, per_file=400, name="c05pin")
+        notes.append({"implementation_observed_but_model_differs": [labels[i] for i in b2[:6]]})
     return notes
 
 
